@@ -475,6 +475,50 @@ for c_ in (False, True):
     BASE[c_] = (st_, out_)
 work = fault_triples(TIER)
 res = run_pool(one, work)
+# ---- an SSH-1 server: its public-key message truncated at every offset, with a bad checksum, garbage, wrong type
+def ssh1_case(arg):
+    import struct as _s
+    from ssh_audit.writebuf import WriteBuf
+    from ssh_audit.ssh1 import SSH1
+    kind, cut = arg
+    w = WriteBuf()
+    w.write_byte(2); w.write(b'\x88' * 8)
+    w.write_int(1024).write_mpint1(0x10001).write_mpint1((1 << 1023) | 5)
+    w.write_int(2048).write_mpint1(0x10001).write_mpint1((1 << 2047) | 7)
+    w.write_int(2); w.write_int(72); w.write_int(36)
+    full = w.write_flush()
+    def pkt(payload, crc_ok=True):
+        pad = b'\x00' * (8 - (len(payload) + 4) %% 8)
+        return _s.pack('>I', len(payload) + 4) + pad + payload + _s.pack('>I', SSH1.crc32(pad + payload) if crc_ok else 0x12345678)
+    if kind == 'truncate':
+        data = pkt(full[:cut])
+    elif kind == 'badcrc':
+        data = pkt(full, False)
+    elif kind == 'wrongtype':
+        data = pkt(bytes([cut]) + full[1:])
+    elif kind == 'rawcut':
+        data = pkt(full)[:cut]
+    else:
+        data = bytes((i * 31 + 7) %% 256 for i in range(cut))
+    peer = F.Peer('healthy', banner=b'SSH-1.5-OpenSSH_1.2.3\r\n')
+    peer.script = lambda n: [peer.banner, data]
+    net = F.FakeNet({'s.test': peer})
+    net.recv_budget = 20000
+    st, out = F.run_main(['-n', '-1', '--skip-rate-test', 's.test'], net)
+    inp = {'class': 'ssh1', 'stage': 'ssh1-public-key', 'fault': [kind, cut]}
+    any_alg = any(l.startswith(('(enc) ', '(aut) ')) for l in out.split('\n'))
+    whole = (kind == 'truncate' and cut == len(full))
+    if st not in (0, 1, 2, 3):
+        exc = [l for l in out.split('\n') if re.match(r'^[A-Za-z_.]+(Error|Exception)\b', l)]
+        return [{'input': dict(inp, **{'class': 'crash:' + (exc[-1].split(':')[0] if exc else 'status')}), 'got': {'status': st, 'exception': exc[-1][:160] if exc else ''}, 'want': 'a documented status and no uncaught exception'}]
+    if whole and not any_alg:
+        return [{'input': dict(inp, **{'class': 'ssh1-report-missing'}), 'got': {'status': st}, 'want': 'an SSH-1 algorithm report for a well-formed message'}]
+    if not whole and kind in ('truncate', 'rawcut', 'garbage') and (any_alg or st != 1):
+        return [{'input': dict(inp, **{'class': 'ssh1-malformed-reported'}), 'got': {'status': st, 'algorithm report': any_alg}, 'want': 'no algorithm report and status 1 for a malformed handshake'}]
+    return []
+ssh1_work = [('truncate', c) for c in range(0, 428)] + [('badcrc', 0)] + [('wrongtype', t) for t in (0, 1, 3, 20, 255)] + [('rawcut', c) for c in range(0, 440, 7)] + [('garbage', n) for n in (1, 7, 8, 16, 64)]
+res += run_pool(ssh1_case, ssh1_work)
+work = list(work) + ssh1_work
 failures, per = [], {}
 for fl in res:
     for f in fl:
